@@ -163,19 +163,88 @@ def rd_oracle(case, out):
     return None
 
 
+# ------------------------------------------------------------------ real pool engine (PL) ------
+def pl_content(k, i): return (i * 131 + k * 17 + (i >> 8) * 7 + 3) & 0xFF
+def pl_fnv(bs):
+    h = 1469598103934665603
+    for b in bs:
+        h ^= b; h = (h * 1099511628211) & 0xFFFFFFFFFFFFFFFF
+    return h
+
+def pl_parse(case):
+    kv = dict(t.split('=', 1) for t in case.split(' ')[1:])
+    sizes = [int(x) for x in kv['sizes'].split(',')]
+    phases = []
+    for ph in kv['phases'].split(';'):
+        phases.append('X' if ph == 'X' else [th.split(',') for th in ph.split('|')])
+    return kv, sizes, phases
+
+def pl_known_class(case):
+    """class of finding C17-F1: a trim (fallocate(0, off, -1)) at an offset that is not a multiple of the page
+    size (4096), followed by a later open of the file by a new store (pool re-created: phase X)"""
+    kv, sizes, phases = pl_parse(case)
+    trimmed = False
+    for ph in phases:
+        if ph == 'X':
+            if trimmed: return 'C17-F1'
+            continue
+        for th in ph:
+            for o in th:
+                if o[0] == 't' and int(o[1:].split(':')[1]) % 4096 != 0: trimmed = True
+    return None
+
+def pl_oracle(case, out):
+    kv, sizes, phases = pl_parse(case)
+    if out.startswith('CRASH') or out in ('NODIR', 'NOFS', 'BADCASE'): return 'pool harness failed: ' + out
+    toks = dict(t.split('=', 1) for t in out.split(' ') if '=' in t)
+    if toks.get('beyond') != '0': return 'a source read reached beyond the source size (beyond=%s)' % toks.get('beyond')
+    for pi, ph in enumerate(phases):
+        if ph == 'X': continue
+        for ti, th in enumerate(ph):
+            for oi, o in enumerate(th):
+                if o[0] != 'r': continue
+                k, off, ln = (int(x) for x in o[1:].split(':'))
+                key = '%d.%d.%d' % (pi, ti, oi)
+                if key not in toks: return 'no result for read %s' % key
+                ret_s, h = toks[key].split(':')
+                ret = int(ret_s)
+                exp = max(0, min(ln, sizes[k] - off))
+                if ret != exp: return 'read %s of file %d (size %d) offset %d length %d returned %d, the source has %d bytes there' % (key, k, sizes[k], off, ln, ret, exp)
+                if ret > 0 and int(h, 16) != pl_fnv(pl_content(k, i) for i in range(off, off + ret)):
+                    return 'read %s of file %d offset %d length %d returned bytes that differ from the source' % (key, k, off, ln)
+    return None
+
+PL_WITNESS_F1 = 'PL unit=4096 cap=1 fiemap=0 sizes=10000 phases=r0:0:10000,t0:5000;X;r0:6000:100,r0:0:10000'
+
+
 class Check(DiffCheck):
     id = 'C17'
     coq_dirs = ['C17']
-    coq_targets = ['C17/C17_Lists.vo', 'C17/C17_RM_Proofs.vo', 'C17/C17_Proofs.vo']
+    coq_targets = ['C17/C17_Lists.vo', 'C17/C17_RM_Proofs.vo', 'C17/C17_Proofs.vo', 'C17/C17_Reopen.vo', 'C17/C17_Conc.vo']
     properties_v = 'C17/C17_Properties.v'
     extract_v = 'C17/C17_Extract.v'
     runner_ml = 'ocaml/C17_run.ml'
     model_module = 'C17_model'
-    rule = ('RM: all sequences of <= 3 mutators over the universe [0,6) (add/remove every l<r, degenerate l>=r, removeFrom, clear), '
-            'each followed by every query (l,r) in [0,7)^2; random sequences of 4..30 ops over [0,40) and near 2^63. '
-            'non-trivial RM = at least two mutators whose ranges intersect or touch')
-    assumptions = []
-    partial_note = ''
+    rule = ('RM (RangeModule, E1): all sequences of <= 2 mutators over [0,6) and of 3 over [0,5) (thorough: 3 over [0,6), sampled 4), each followed by '
+            'every query (l,r); random sequences of 4..30 ops over [0,40) and near 2^63-1. non-trivial RM = two mutators whose ranges intersect or touch. '
+            'RD (read path, E1/E5: real ICacheStore::preadv2/do_refill_range on a real FileCacheStore over an in-memory media file and a scripted source): '
+            'every (offset,count) over files of size 0..11(16) x cached-range patterns x refill units {4,8} x {no pool, async write-back, inline}; every 2-way '
+            'segmentation (and zero-length segments) for size 9; random op sequences (reads, range/trim/whole-file evictions) with source faults (fail/short), '
+            'media-write faults, held range locks (reader blocks, holder fills, -EAGAIN retry), CACHE_ONLY/SYNC flags, direct-read threshold, page {1,4,8,16}, '
+            'units {1,2,4,8,16,3,6,12}; plus arbitrary (inconsistent) states for the tie only. non-trivial RD = a read of a partly cached range, or an eviction between two reads. '
+            'PL (second engine, python oracle only): real new_full_file_cached_fs over a media directory, 1-4 reader threads + evictor, pool re-creation.')
+    assumptions = ['the source file does not change; the source size fits off_t',
+                   'sequential read theorem: no foreign range lock held at entry (waiting/-EAGAIN is covered by the tie and by the interleaving model)',
+                   'interleaving model: rwlock and RangeLock are used by their specifications (C06, C18); sequential consistency',
+                   'reuse of the media directory: the rebuilt filled map is a subset of what was written (holds when the media fs block size divides the refill unit) '
+                   'and the media file size is page aligned or equal to the source size (violated after an unaligned trim: finding C17-F1)']
+    trusted_base = ['IOVector operations are modelled by their flat-byte meaning (property C14)',
+                    'in-memory media IFile / scripted source IFile of harness/C17/harness.cpp define plain-file semantics',
+                    'kernel-backed media (ext4 localfs), fiemap, SEEK_DATA/SEEK_HOLE rebuild: exercised by the PL engine with a python oracle only, not modelled',
+                    'quota pool, cold-tier bookkeeping, persistent cache, ocf cache, O_WRITE_BACK/pin_write paths: not modelled']
+    partial_note = ('PARTIAL by design: theorems cover RangeModule, the sequential read path on the in-memory filled-range path (FileCacheStore without fiemap) '
+                    'and a lock-granularity interleaving model; the fiemap path, the media file system, quota pools and cold tiers are not modelled '
+                    '(the real FileCachePool is only exercised against a python oracle).')
 
     def build_impl(self):
         exe, log = cxx_build(self.id, ['harness/C17/harness.cpp'], libphoton=True)
@@ -367,12 +436,86 @@ class Check(DiffCheck):
         cs += self.gen_rd(tier, rng)
         return list(dict.fromkeys(cs))
 
+
+    # ---------------------------------------------------------------- second engine: the real pool
+    def gen_pl(self, tier, rng):
+        cs = ['PL unit=4096 cap=1 fiemap=0 sizes=10000,4097 phases=r0:0:100,r0:4090:20,r0:9990:100,r1:4000:200|r0:5000:3000,e0,r0:100:50;X;r0:0:10000,r1:0:5000',
+              'PL unit=4096 cap=0 fiemap=0 sizes=10000,4097 phases=r0:0:100,r0:4090:20,r0:9990:100,r1:4000:200|r0:5000:3000,r0:100:50;r0:0:10000,r1:0:5000',
+              'PL unit=8192 cap=1 fiemap=1 sizes=20000,5 phases=r0:8000:300,r1:0:9,r0:19990:100|e0,y,e1,y,e0;X;r0:0:20000|r0:100:19000,e0',
+              'PL unit=4096 cap=1 fiemap=0 sizes=12288 phases=r0:0:12288;t0:8192;X;r0:8000:400,r0:0:12288',
+              PL_WITNESS_F1]
+        n = 40 if tier == 'quick' else 600
+        pool_sizes = (5, 4095, 4096, 4097, 8193, 10000, 12288, 20000)
+        for _ in range(n):
+            nf = rng.randrange(1, 4)
+            sizes = [rng.choice(pool_sizes) for _ in range(nf)]
+            unit = rng.choice((4096, 4096, 8192)); cap = 0 if rng.random() < 0.2 else 1
+            fiemap = 1 if rng.random() < 0.25 else 0
+            def rd():
+                k = rng.randrange(nf); S = sizes[k]; m = rng.randrange(4)
+                if m == 0: off = rng.randrange(0, S + 100); ln = rng.randrange(1, 9000)
+                elif m == 1: off = max(0, S - rng.randrange(0, 5000)); ln = rng.randrange(1, 6000)
+                elif m == 2: off = (rng.randrange(0, S + 1) // 4096) * 4096 + rng.choice((-1, 0, 1, 4095)); off = max(0, off); ln = rng.choice((1, 2, 4095, 4096, 4097, 8192))
+                else: off = rng.randrange(0, max(1, S)); ln = rng.randrange(1, 200)
+                return 'r%d:%d:%d' % (k, off, ln)
+            phases = []
+            for _ in range(rng.randrange(2, 5)):
+                r = rng.random()
+                if r < 0.2 and phases: phases.append('X'); continue
+                if r < 0.3:
+                    k = rng.randrange(nf); a = (rng.randrange(0, sizes[k] + 1) // 4096) * 4096
+                    op = 't%d:%d' % (k, a) if rng.random() < 0.5 else 'p%d:%d:%d' % (k, a, rng.choice((4096, 8192, 100)))
+                    phases.append(','.join([rd(), op, rd()])); continue
+                ths = []
+                for _ in range(rng.randrange(1, 5)):
+                    ops = []
+                    for _ in range(rng.randrange(2, 8)):
+                        ops.append(rd() if rng.random() < 0.8 else 'y')
+                    ths.append(','.join(ops))
+                if rng.random() < 0.6:
+                    ev = []
+                    for _ in range(rng.randrange(1, 6)):
+                        ev.append('e%d' % rng.randrange(nf)); ev += ['y'] * rng.randrange(0, 4)
+                    ths.insert(rng.randrange(len(ths) + 1), ','.join(ev))
+                phases.append('|'.join(ths))
+            cs.append('PL unit=%d cap=%d fiemap=%d sizes=%s phases=%s' % (unit, cap, fiemap, ','.join(map(str, sizes)), ';'.join(phases)))
+        return cs
+
+    def extra(self, ctx):
+        exe, log = cxx_build(self.id, ['harness/C17/pool_harness.cpp'], libphoton=True, out=os.path.join(BUILD, 'bin', 'C17_pool'))
+        if not exe: raise RuntimeError(log)
+        cases = self.gen_pl(ctx['tier'], ctx['rng'])
+        env = self.impl_env(); env['VERIF_MEDIA_DIR'] = os.path.join(BUILD, 'media')
+        os.makedirs(env['VERIF_MEDIA_DIR'], exist_ok=True)
+        outs = run_cases(exe, cases, ctx['tmp'], 'pool', nshards=min(NPROC, max(1, len(cases) // 4)), timeout=900, env=env)
+        viol, known, nreads = [], {}, 0
+        for c, o in zip(cases, outs):
+            nreads += c.count('r') if False else sum(1 for t in re.split('[;|,]', c.split('phases=')[1]) if t.startswith('r'))
+            msg = pl_oracle(c, o or '')
+            if msg:
+                kc = pl_known_class(c)
+                if kc: known.setdefault(kc, (c, msg))
+                else: viol.append(dict(kind='oracle', message='real FileCachePool run: ' + msg, case=c, model_out='(no model: python oracle only)', impl_out=(o or '')[:2000]))
+        for k, (c, msg) in known.items():
+            print('KNOWN-FINDING: property=%s %s: %s [witness: %s]' % (self.id, k, msg, c))
+        self.extra_coverage = dict(pool_engine=dict(programs=len(cases), reads_checked=nreads, known_finding_cases={k: v[0] for k, v in known.items()},
+                                   note='real new_full_file_cached_fs over localfs media under .build/media; media I/O yields; fiemap=0 forces the in-memory RangeModule path, fiemap=1 the kernel fiemap path; python oracle only'))
+        return viol[:1]
+
     # ---------------------------------------------------------------- classification
     def category(self, case):
         k = case.split(' ', 1)[0]
         if k == 'RM':
             n = len(rm_parse_ops(case.split(' ')[1]))
             return 'RM:len<=3' if n <= 3 else ('RM:len4' if n == 4 else 'RM:long')
+        if k == 'RD':
+            d = rd_parse(case)
+            c = 'RD:consistent' if rd_consistent(d) else 'RD:arbitrary-state'
+            if any(t[0] in 'sf' for t in d['sor'] + d['wor']): c += '+faults'
+            if any(o[0] == 'R' and o[3] for o in d['ops']): c += '+rangelock-wait'
+            if d['pool'] and d['tp'] and d['refilling'] < 128: c += '+async'
+            if any(o[0] in 'ET' for o in d['ops']): c += '+evict'
+            return c
         return k
 
     def nontrivial(self, case):
@@ -382,6 +525,18 @@ class Check(DiffCheck):
             for i in range(len(ops)):
                 for j in range(i):
                     if ops[i][1] <= ops[j][2] and ops[j][1] <= ops[i][2]: return True
+            return False
+        if k == 'RD':
+            d = rd_parse(case)
+            seen_read = False
+            for i, o in enumerate(d['ops']):
+                if o[0] == 'R':
+                    off, cnt = o[1], sum(o[2])
+                    cov = sum(max(0, min(e, off + cnt) - max(s, off)) for (s, e) in d['filled'])
+                    if 0 < cov < cnt: return True                      # partly cached
+                    if seen_read == 'evicted': return True            # an eviction between two reads
+                    seen_read = True
+                elif seen_read: seen_read = 'evicted'
             return False
         return True
 
@@ -401,4 +556,17 @@ class Check(DiffCheck):
             for i in range(len(ol)):            # drop one op
                 rest = ol[:i] + ol[i + 1:]
                 out.append('RM %s %s' % (','.join(rest) if rest else '-', qs))
+        if k == 'RD':
+            d = rd_parse(case)
+            kv = dict(t.split('=', 1) for t in case.split(' ')[1:])
+            for i, o in enumerate(d['ops']):
+                if o[0] != 'R': continue
+                for do in (-1, 0, 1):
+                    for dc in (-1, 0, 1):
+                        if o[1] + do < 0 or sum(o[2]) + dc < 1 or (do == 0 and dc == 0): continue
+                        ops = list(d['ops']); ops[i] = ('R', o[1] + do, [sum(o[2]) + dc], o[3], o[4])
+                        out.append(rd_case(d['page'], d['unit'], d['src'], d['actual'], d['filled'], d['media'], 1 if d['td'] else 0, ops,
+                                           pool=1 if d['pool'] else 0, tp=1 if d['tp'] else 0, refilling=d['refilling'], thr=d['thr'], sor=d['sor'], wor=d['wor']))
+            out.append(rd_case(d['page'], d['unit'], d['src'], d['actual'], d['filled'], d['media'], 1 if d['td'] else 0, d['ops'][:1],
+                               pool=1 if d['pool'] else 0, tp=1 if d['tp'] else 0, refilling=d['refilling'], thr=d['thr']))
         return out
